@@ -173,7 +173,11 @@ def focus_functions(rep, names):
 
 
 def build_drive():
-    return common.go_build("./cmd/concdrive", name="concdrive", test=True)
+    binp, log = common.go_build("./cmd/concdrive", name="concdrive", test=True)
+    if binp is None and "VerifTableSizes" in log:
+        # a tree without router/verif_hooks.go: everything but the table inspection
+        return common.go_build("./cmd/concdrive", name="concdrive", test=True, tags="verif,nohooks")
+    return binp, log
 
 
 def drive(prop, tier, budget_s, n=None, focus=None, skip=None, corpus=True, shrink=True, tag=""):
